@@ -109,6 +109,13 @@ Definition chain_seqres_friendly (c : chain) : bool :=
 Definition seqres_friendly (f : pdbfile) : bool := forallb (fun m => forallb chain_seqres_friendly (m_chains m)) (pf_models f).
 Definition has_seqres (wlevel : Z) (f : pdbfile) : bool := ((wlevel =? 0)%Z || negb (is_nil (pf_dbrefs f)))%bool.
 
+(* a cell edge of 100000 or more does not fit the nine columns CRYST1 gives it (validate_pdb looks at the atoms and the hierarchy only) *)
+Definition cell_edge_outside_columns (f : pdbfile) : bool :=
+  match pf_cell f with
+  | Some c => existsb (fun x => fle (FFin 100000 0) x) (firstn 3 c)
+  | None => false
+  end.
+
 Definition run_c03 (x : sx) : sx :=
   match x with
   | SL [SY "read"; SZ opts; SZ level; SS input] => run_c01 (SL [SY "read"; SZ opts; SZ level; SS input])
@@ -128,7 +135,8 @@ Definition run_c03 (x : sx) : sx :=
   | SL (SY "rewrite" :: _) => SY "same"
   | SL [SY "classify"; SL [SY "roundtrip"; SZ wlevel; f; _]] =>
       match pfile_of_sx f with
-      | Some a => if has_seqres wlevel a then SY "Known_seqres_written_from_present_residues" else SY "none"
+      | Some a => if cell_edge_outside_columns a then SY "Known_cell_edge_outside_cryst1_columns"
+                  else if has_seqres wlevel a then SY "Known_seqres_written_from_present_residues" else SY "none"
       | None => SY "none"
       end
   | SL [SY "classify"; SL (SY "reread" :: SY "seqres" :: _)] => SY "Known_seqres_written_from_present_residues"
